@@ -47,7 +47,7 @@ type foreignStruct struct{ A int }
 // foreign returns a value that encoding/json never produces for interface{}: the library must
 // treat it as an opaque leaf (and must not write it back changed).
 func foreign() interface{} {
-	switch rn(8) {
+	switch rn(9) {
 	case 0:
 		return 3
 	case 1:
@@ -62,6 +62,11 @@ func foreign() interface{} {
 		return []map[string]interface{}{{"a": 1.0}, {"a": 2.0}}
 	case 6:
 		return foreignStruct{A: 1}
+	case 7:
+		if rn(2) == 0 {
+			return json.RawMessage(`{"a":1,"b":[1,2]}`)
+		}
+		return []byte(`[1,2,3]`)
 	}
 	return float32(1.5)
 }
@@ -198,8 +203,180 @@ func (d docGen) bigDoc() interface{} {
 	return map[string]interface{}{"list": a, "a": d.leaf(), "b": d.leaf()}
 }
 
-// doc builds a document of one of several shapes that the path generators aim at.
+// doc builds a document of one of several shapes that the path generators aim at.  Now and
+// then a few of its parts are left undecoded (json.RawMessage, the body of an envelope).
 func (d docGen) doc(trap bool) interface{} {
+	v := d.doc0(trap)
+	if rn(14) == 13 {
+		if rn(8) == 0 {
+			// the whole message still undecoded
+			if txt, err := json.Marshal(v); err == nil && len(txt) <= 4096 {
+				return json.RawMessage(rawBuffer(txt))
+			}
+		}
+		rawify(v, 1+rn(3))
+	}
+	return v
+}
+
+// rawBuffer returns the text in a buffer of its own: a new one, or (a caller that recycles
+// its message buffers) one that held another text of the same length in an EARLIER run of
+// this process, whose documents are gone.  Which of the two does not influence any draw.
+var (
+	rawArena = map[int][][]byte{}
+	rawUsed  = map[*byte]int{}
+	runNo    int // number of the run in this process (set by main)
+)
+
+func rawBuffer(txt []byte) []byte {
+	recycle := rn(10) < 6
+	if len(txt) == 0 {
+		return txt
+	}
+	if recycle {
+		for _, b := range rawArena[len(txt)] {
+			if rawUsed[&b[0]] != runNo {
+				rawUsed[&b[0]] = runNo
+				copy(b, txt)
+				return b
+			}
+		}
+	}
+	b := make([]byte, len(txt))
+	copy(b, txt)
+	if len(rawArena[len(txt)]) < 32 {
+		rawArena[len(txt)] = append(rawArena[len(txt)], b)
+		rawUsed[&b[0]] = runNo
+	}
+	return b
+}
+
+// editRawInPlace overwrites one digit in one undecoded part of v (the caller's own buffer,
+// edited between two calls); false if v has no such part.
+func editRawInPlace(v interface{}, pick int) bool {
+	var raws [][]byte
+	var walk func(x interface{}, d int)
+	walk = func(x interface{}, d int) {
+		if d > 8 {
+			return
+		}
+		switch t := x.(type) {
+		case json.RawMessage:
+			raws = append(raws, t)
+		case []byte:
+			raws = append(raws, t)
+		case map[string]interface{}:
+			for _, k := range sortedKeys(t) {
+				walk(t[k], d+1)
+			}
+		case []interface{}:
+			for _, e := range t {
+				walk(e, d+1)
+			}
+		}
+	}
+	walk(v, 0)
+	if len(raws) == 0 {
+		return false
+	}
+	b := raws[pick%len(raws)]
+	var at []int
+	for i, c := range b {
+		if c >= '0' && c <= '9' {
+			at = append(at, i)
+		}
+	}
+	if len(at) == 0 {
+		return false
+	}
+	i := at[(pick/7)%len(at)]
+	b[i] = '1' + (b[i]-'0'+byte(pick/3)%8)%9
+	return true
+}
+
+// rawify replaces up to n container-valued members of v by their JSON text.
+func rawify(v interface{}, n int) {
+	type slot struct {
+		m map[string]interface{}
+		k string
+		a []interface{}
+		i int
+	}
+	var slots []slot
+	var walk func(v interface{}, d int)
+	walk = func(v interface{}, d int) {
+		if d > 5 || len(slots) > 40 {
+			return
+		}
+		switch c := v.(type) {
+		case map[string]interface{}:
+			for _, k := range sortedKeys(c) {
+				switch c[k].(type) {
+				case map[string]interface{}, []interface{}:
+					slots = append(slots, slot{m: c, k: k})
+					walk(c[k], d+1)
+				}
+			}
+		case []interface{}:
+			for i := range c {
+				switch c[i].(type) {
+				case map[string]interface{}, []interface{}:
+					slots = append(slots, slot{a: c, i: i})
+					walk(c[i], d+1)
+				}
+			}
+		}
+	}
+	walk(v, 0)
+	for ; n > 0 && len(slots) > 0; n-- {
+		s := slots[rn(len(slots))]
+		var sub interface{}
+		if s.m != nil {
+			sub = s.m[s.k]
+		} else {
+			sub = s.a[s.i]
+		}
+		switch sub.(type) {
+		case map[string]interface{}, []interface{}:
+		default:
+			continue // already replaced
+		}
+		txt, err := json.Marshal(sub)
+		if err != nil || len(txt) > 4096 {
+			continue
+		}
+		txt = rawBuffer(txt)
+		var raw interface{} = json.RawMessage(txt)
+		if rn(4) == 0 {
+			raw = []byte(txt)
+		}
+		if s.m != nil {
+			s.m[s.k] = raw
+		} else {
+			s.a[s.i] = raw
+		}
+	}
+}
+
+// seeThrough shows the path generators what an undecoded part would decode to.
+func seeThrough(v interface{}) interface{} {
+	var txt []byte
+	switch t := v.(type) {
+	case json.RawMessage:
+		txt = t
+	case []byte:
+		txt = t
+	default:
+		return v
+	}
+	var out interface{}
+	if json.Unmarshal(txt, &out) != nil {
+		return v
+	}
+	return out
+}
+
+func (d docGen) doc0(trap bool) interface{} {
 	if rn(25) == 24 {
 		return d.bigDoc()
 	}
@@ -510,6 +687,7 @@ func (g *pathGen) awareComparison() (string, bool) {
 
 // awareStep renders a step that matches the node the path selects so far.
 func (g *pathGen) awareStep() (text string, single bool, ok bool) {
+	g.cur = seeThrough(g.cur)
 	switch t := g.cur.(type) {
 	case map[string]interface{}:
 		keys := sortedKeys(t)
@@ -787,7 +965,7 @@ func (g *pathGen) query(depth int) string {
 		}
 		return not + g.groupPath(pick([]string{"@", "@", "$"}), depth)
 	case 5:
-		return g.singlePath("@") + sp() + "=~" + sp() + "/" + pick([]string{"a", "^[ab]$", "1", ".", "(?i)A"}) + "/"
+		return g.singlePath("@") + sp() + "=~" + sp() + "/" + regex() + "/"
 	case 6:
 		return g.comparison()
 	case 7:
@@ -796,6 +974,25 @@ func (g *pathGen) query(depth int) string {
 		return g.query(depth-1) + sp() + "||" + sp() + g.query(depth-1)
 	}
 	return "(" + sp() + g.query(depth-1) + sp() + ")"
+}
+
+// regex renders a regular expression: mostly from a small palette (so that the same pattern
+// recurs), now and then one of an unbounded family (caches of compiled patterns fill up and
+// evict only when many DISTINCT patterns are seen by one process).
+func regex() string {
+	if rn(4) == 3 {
+		n := rn(400)
+		switch rn(4) {
+		case 0:
+			return "^[ab]{0," + strconv.Itoa(n%9) + "}$"
+		case 1:
+			return "^v" + strconv.Itoa(n) + "$"
+		case 2:
+			return "(?i)x" + strconv.Itoa(n%50) + "|a"
+		}
+		return "a{" + strconv.Itoa(1+n%3) + "}|" + strconv.Itoa(n)
+	}
+	return pick([]string{"a", "^[ab]$", "1", ".", "(?i)A", "^$", "b+", "[0-9]", "x|a"})
 }
 
 func idx() string {
@@ -1132,11 +1329,24 @@ func genModelPathFor(doc interface{}, trap bool) *PathSpec {
 			if single {
 				m = 1
 			}
+			// now and then the whole union is one run of consecutive indexes which may begin
+			// before the array, cross -1/0 or run off its end, plus one stray index
+			runFrom, runLen := 0, 0
+			if a, ok := cur.([]interface{}); ok && len(a) > 0 && !single && chance(12) {
+				runLen = 2 + rn(4)
+				runFrom = rn(2*len(a)+6) - len(a) - 3
+				m = runLen + rn(2)
+			}
 			ix := make([]int, m)
 			wild := make([]bool, m)
 			slices := make([]*[3]*int, m)
 			parts := make([]string, m)
 			for j := range ix {
+				if j < runLen {
+					ix[j] = runFrom + j
+					parts[j] = strconv.Itoa(ix[j])
+					continue
+				}
 				if !single && chance(15) {
 					wild[j] = true
 					parts[j] = "*"
@@ -1174,6 +1384,12 @@ func genModelPathFor(doc interface{}, trap bool) *PathSpec {
 				ix[j] = rn(4) - 1
 				if a, ok := cur.([]interface{}); ok && len(a) > 0 && chance(70) {
 					ix[j] = rn(2*len(a)) - len(a) // any valid index of either sign
+					if chance(15) {
+						ix[j] = rn(2*len(a)+7) - len(a) - 3 // or just outside the array
+					}
+				}
+				if j > 0 && !wild[j-1] && slices[j-1] == nil && chance(25) {
+					ix[j] = ix[j-1] + 1 // a run of consecutive indexes (may cross -1, 0)
 				}
 				if chance(10) {
 					ix[j] = 60 + rn(10) // wide arrays
@@ -1220,6 +1436,12 @@ func genModelPathFor(doc interface{}, trap bool) *PathSpec {
 		}
 	}
 	spec.Text, spec.Prefix, spec.Model = s, s, steps
+	if len(steps) == 0 {
+		// "$" alone (the document is a scalar or an undecoded message): the root is no slot
+		// of the model
+		spec.Model = nil
+		spec.SingleValued = true
+	}
 	return spec
 }
 
